@@ -15,6 +15,8 @@ import (
 	"strings"
 	"sync"
 	"time"
+
+	"golang.org/x/tools/go/ssa"
 )
 
 type rangeOpsEco struct {
@@ -91,7 +93,8 @@ func verifSat(op string, c int) bool {
 
 func TestVerifReplay(t *testing.T) {
 	ecos := []verifEco{ECOS}
-	pool := []string{"1.0.0", "1.2.3", "2.0.0", "1.10.0", "0.9.0", "1.2.4", "1.0.0-alpha", "1.0.0-rc1", "3.1.0"}
+	// bounds are taken from the front of the pool: plain versions and pre-releases in both letter cases
+	pool := []string{"1.0.0", "1.2.3", "1.0.0-RC1", "2.0.0", "1.0.0-beta.2", "1.10.0", "0.9.0", "1.2.4", "1.0.0-alpha", "1.0.0-rc1", "1.0.0-Beta.1", "3.1.0"}
 	for _, e := range ecos {
 		var valid []string
 		for _, s := range pool {
@@ -128,8 +131,8 @@ func TestVerifReplay(t *testing.T) {
 			ops = append(ops, oc{a, m})
 		}
 		bounds := valid
-		if len(bounds) > 5 {
-			bounds = bounds[:5]
+		if len(bounds) > MAXBOUNDS {
+			bounds = bounds[:MAXBOUNDS]
 		}
 		group := func(o1 oc, b1 string, o2 oc, b2 string, sep string) string { return o1.text + b1 + sep + o2.text + b2 }
 		if !e.listOnly {
@@ -152,7 +155,7 @@ func TestVerifReplay(t *testing.T) {
 		for _, sep := range e.ands {
 			for i, o1 := range ops {
 				for j, o2 := range ops {
-					if (i+j)%2 == 1 && len(ops) > 5 {
+					if (i+j)%2 == 1 && len(ops) > 5 && !ALLPAIRS {
 						continue // half of the operator pairs
 					}
 					for bi, b1 := range bounds {
@@ -177,7 +180,7 @@ func TestVerifReplay(t *testing.T) {
 			for _, orsep := range []string{e.or, " " + e.or + " "} {
 				for i, o1 := range ops {
 					for j, o2 := range ops {
-						if (i+j)%2 == 1 {
+						if (i+j)%2 == 1 && !ALLPAIRS {
 							continue
 						}
 						for bi, b1 := range bounds {
@@ -246,7 +249,15 @@ func rangeOpsSource() string {
 		}
 		fmt.Fprintf(&b, "\n\t\t{name: %q, ops: []string{%s}, alias: %s, ands: []string{%s}, or: %q, prefix: %q, listOnly: %v},", e.name, quoteList(e.ops), alias, quoteList(e.ands), e.or, e.prefix, e.listOnly)
 	}
-	return strings.Replace(rangeOpsTmpl, "ECOS", b.String()+"\n\t", 1)
+	src := strings.Replace(rangeOpsTmpl, "ECOS", b.String()+"\n\t", 1)
+	if harnessThorough {
+		src = strings.ReplaceAll(src, "MAXBOUNDS", "9")
+		src = strings.ReplaceAll(src, "ALLPAIRS", "true")
+	} else {
+		src = strings.ReplaceAll(src, "MAXBOUNDS", "5")
+		src = strings.ReplaceAll(src, "ALLPAIRS", "false")
+	}
+	return src
 }
 
 type rangeOpsResult struct {
@@ -306,7 +317,7 @@ func (w *World) rangeOpsVCs() []VC {
 				"or":     "groups joined by " + e.or + " contain exactly the union",
 			}[k]
 			vcs = append(vcs, VC{Name: e.name + ".(*Ecosystem).NewVersionRange.comparators[" + k + "].bounded", Prop: "C02", Kind: "bounded.api", Fn: e.name + ".(*Ecosystem).NewVersionRange", Pos: "pkg/ecosystem/" + e.name + "/range.go",
-				Clause: e.name + ": " + clause, Bounded: "every supported comparator (and alias) x 5 bound versions x up to 9 probe versions (incl. pre-releases); operator pairs x neighbouring bounds for AND / OR; through the CLI front end",
+				Clause: e.name + ": " + clause, Bounded: "every supported comparator (and alias) x 5 bound versions x up to 12 probe versions (incl. pre-releases in both letter cases); operator pairs x neighbouring bounds for AND / OR; through the CLI front end",
 				Run: func() SolveResult {
 					r := runRangeOps(w)
 					res := SolveResult{Solver: "enumeration(go test -overlay)", Seconds: r.secs / 50}
@@ -325,4 +336,22 @@ func (w *World) rangeOpsVCs() []VC {
 		}
 	}
 	return vcs
+}
+
+// rangeOpsFalsifier is the replay of a failed C02 obligation: the first difference the per-ecosystem comparator harness
+// (documented operator and separator tables) finds for the ecosystem of the failed function.
+func rangeOpsFalsifier(w *World, fn *ssa.Function, r vcResult) *Counterexample {
+	eco := strings.SplitN(r.vc.Fn, ".", 2)[0]
+	if fn != nil && fn.Pkg != nil {
+		eco = fn.Pkg.Pkg.Name()
+	}
+	res := runRangeOps(w)
+	cx := &Counterexample{How: "real CLI: run(" + eco + " contains <range> <v>) against run(" + eco + " compare <v> <bound>) for the documented comparators and separators", Output: truncate(lastLines(res.out, 6), 1200), Observed: "no difference observed"}
+	for _, k := range []string{"single", "and", "or"} {
+		if st := res.status[eco+"/"+k]; st[0] == "FAIL" {
+			cx.Confirmed, cx.Observed = true, eco+" "+k+": "+st[1]
+			break
+		}
+	}
+	return cx
 }
